@@ -4,12 +4,19 @@
 (* XRefHistory.  Only Ref... operators (and the admissible sets of the      *)
 (* property) are used for acceptance.  Three kinds of record:               *)
 (*                                                                           *)
-(*  [t |-> "hist", h, open, probes, trailer]                                *)
+(*  [t |-> "hist", h, crypt, open, probes, trailer]                         *)
 (*     h       the history (kinds and operations) the independent           *)
 (*             serialiser rendered;                                         *)
+(*     crypt   how the file was encrypted (XRefHistory!CryptNames); the     *)
+(*             reader was given the password;                               *)
 (*     open    the file could be opened;                                    *)
 (*     probes  <<n, g, res>>: Reader.Get(n g R) returned the value written  *)
-(*             by revision res (0: null, -1: error, -2: some other value);  *)
+(*             by revision res (0: null, -1: error, -2: some other value -  *)
+(*             in particular strings or stream data that were not decrypted *)
+(*             with the key of <<n, g>>, or members of an object stream     *)
+(*             decrypted although only their container is encrypted: every  *)
+(*             value of an encrypted rendering holds a string or is a       *)
+(*             stream, so RefPhysK's key is observed through the value);    *)
 (*             n = 999 stands for a number >= /Size;                        *)
 (*     trailer the revision whose trailer entries GetMeta().Trailer holds   *)
 (*             (0: none of them).                                           *)
@@ -34,6 +41,7 @@ HistCaseOK(c) ==
   LET h == HistOf(c)
       st == StateAfter(h, Len(h))     \* RefLookup(h, n, g) = RefIn(st, n, g)
   IN /\ ValidHistory(h)       \* the harness only renders what the standard allows
+     /\ c.crypt \in CryptNames
      /\ c.open
      /\ \A i \in 1..Len(c.probes) :
           c.probes[i][3] = RefIn(st, c.probes[i][1], c.probes[i][2])
